@@ -155,6 +155,7 @@ EndClauses(e) ==
    <<"C02_UniformAllDecide", Cfg.uniform => (e.reason = "done" /\ \A p \in parts : p.decided = e.insts)>>,
    \* C06: after stabilisation every started honest participant decides within the round bound
    <<"C06_DecidesWithinBound",
+      \* "stalled": the driver cut the run because, long after stabilisation, a started live participant had not moved for 150 round lengths
       (e.gst > 0 /\ e.gstpassed /\ e.reason # "maxsteps") =>
          \A p \in parts : (p.started /\ ~p.crashed) => (p.decided = e.insts /\ e.reason = "done" /\ p.maxround <= gmax + bound)>>,
    <<"Conf_RunBudget", e.reason # "maxsteps" \/ e.gst = 0>>}
